@@ -131,6 +131,23 @@ var c17KeptMu sync.Mutex  //nolint:gochecknoglobals
 func c17Invariants(c *core.Ctx, raw string, u *stun.URI) bool {
 	detail := map[string]interface{}{"input": raw, "uri": fmt.Sprintf("%+v", *u)}
 	formatted := u.String()
+	// "formatting" is what Go code does with values: the URI by value and by pointer through the fmt verbs, as an element
+	// of a slice, through the Stringer interface. All of them give the text the method gives.
+	uv := *u
+	forms := []string{fmt.Sprint(uv), fmt.Sprintf("%v", uv), fmt.Sprintf("%s", uv), fmt.Sprint(u), fmt.Sprintf("%s", u), strings.Trim(fmt.Sprint([]stun.URI{uv}), "[]")}
+	if st, ok := interface{}(uv).(fmt.Stringer); ok {
+		forms = append(forms, st.String())
+	} else {
+		forms = append(forms, "(a URI value is not a fmt.Stringer)")
+	}
+	for k, f := range forms {
+		if f != formatted {
+			detail["form"], detail["formatted"], detail["method_result"] = k, f, formatted
+			c.Violate("roundtrip", "roundtrip:formatted-by-fmt", detail)
+
+			return false
+		}
+	}
 	c17KeptMu.Lock()
 	for _, kv := range c17Kept {
 		if kv[0] != kv[1] {
@@ -743,6 +760,18 @@ func c17(c *core.Ctx) {
 		u := &stun.URI{Scheme: sch, Host: host, Port: 3478 + int(i), Proto: pr}
 		c17CheckDial(c, u, false, fmt.Sprintf("hand-made scheme=%d proto=%d", sch, pr))
 		c.Distinct(gen.HashString(fmt.Sprintf("hand%d", i)))
+	})
+	// SchemeType and ProtoType are open integer types: values outside the declared constants (a zero value combined with
+	// arithmetic, a cast from configuration) are hand-made combinations too. The rule is the same.
+	c.SectionSerial("dial-out-of-range", 22*22, func(i int64, _ *gen.Rand) {
+		sch := stun.SchemeType(int(i)/22 - 9)
+		pr := stun.ProtoType(int(i)%22 - 9)
+		if sch >= 0 && sch < 5 && pr >= 0 && pr < 3 {
+			return // the declared ones: section dial-handmade
+		}
+		u := &stun.URI{Scheme: sch, Host: "127.0.0.1", Port: 3478, Proto: pr}
+		c17CheckDial(c, u, false, fmt.Sprintf("hand-made scheme=%d proto=%d (outside the declared constants)", sch, pr))
+		c.Distinct(gen.HashString(fmt.Sprintf("oor%d", i)))
 	})
 }
 
